@@ -75,11 +75,13 @@ def handleXml (op : Str) (args : List Str) : Option String :=
         | .error e => joinFields [cs!"err:" ++ e.name.toList, if st.outside then ['1'] else ['0']]
         | .ok (evs, bb) =>
           let out := if real then some evs else Doc.postprocess rcfg evs bb
+          -- the exactness monitor looks at the root as the author wrote it (before post-processing)
+          let derivedOk := real || Doc.postprocessExact rcfg evs bb
           match out with
           | none => joinFields [cs!"err:RootAttrs", ['0']]
           | some evs =>
             let flag := if st.outside then ['1']
-              else if !real && !Doc.postprocessExact rcfg evs bb then ['2'] else ['0']
+              else if !derivedOk then ['2'] else ['0']
             joinFields ([cs!"ok", flag] ++ evs.map encodeEv))
     | _ => none
   else if op == cs!"root_attrs" then
